@@ -1,3 +1,4 @@
+import ErrModel.Generated.UnwrapFacts
 import ErrModel.Compat
 import ErrModel.Proofs.Is
 import ErrModel.Ctor
@@ -128,5 +129,17 @@ theorem C14_library_wrappers_causer (id : Ident) (k : WrapKind) (c : Err)
       | .pathError .. | .linkError .. | .syscallError _ | .fmtWrapError _ | .user .. => False
       | _ => True) : hasCause (.wrap id k c) = true := by
   cases k <;> simp_all [hasCause]
+
+
+/-! ## The source's own Cause / Unwrap methods (regenerated on every run) -/
+
+/-- every Cause / Unwrap method of the current source is a plain `return recv.field` -/
+theorem C14_unwrap_methods_recognised : Unwrap.methods.all (fun m => m.field.head? != some 63) = true := by decide
+
+/-- a type with both methods returns the same field from both: the library's `Cause()`-following
+    traversal and the standard library's `Unwrap()`-following one walk the same chain -/
+theorem C14_cause_unwrap_same_field :
+    Unwrap.methods.all (fun m => Unwrap.methods.all (fun m' =>
+      !(m.pkg == m'.pkg && m.type == m'.type) || m.field == m'.field)) = true := by decide
 
 end ErrModel
